@@ -216,7 +216,7 @@ def run(c, facts, tier):
         exp = ["(", acc, "{mgr.get_matcher($Test.0,%s)}" % ci, ")"]
         c.ob("C02.match", T, "%s → (%s matcher(pattern, ci=%s))" % (v, acc, ci), row is not None and row["tokens"] == exp, "emits `%s`" % (" ".join(row["tokens"]) if row else None), nontrivial=False)
     # C02.fmt-*: placeholder / snippet / literal tables and arity agreement
-    for key in ("scheme::target_scheme::placeholder", "scheme::target_scheme::snippet", "scheme::target_scheme::literal", "<Vec<FormatElement> as TargetScheme>::compile", "scheme::manager::terminator_escape"):
+    for key in ["scheme::target_scheme::placeholder", "scheme::target_scheme::snippet", "scheme::target_scheme::literal", "<Vec<FormatElement> as TargetScheme>::compile"] + [k_ for k_ in codegen.helpers(facts) if k_ in codegen.OPTIONAL_HELPERS]:
         # per-element failures inside a traversal (`∃ element …  → Err`) are rows only in the loop spelling; whether such an
         # error is propagated is C12.propagate's question, the table compares what is emitted when every element is accepted
         codegen.diff_tables(c, "C02.fmt", key, codegen.plain(codegen.table(facts, key)), spec["tables"][key], "format table", fields=("tokens", "outcome"), only=(lambda k_: "∃" not in k_) if "Vec<FormatElement>" in key else None)
@@ -252,7 +252,7 @@ def run(c, facts, tier):
     okc = len(okrows) == 1 and [j[1] for j in joins] == ["", " "] and all(j[0] for j in joins)
     c.ob("C02.fmt-arity", vf.key, "directives and arguments are produced in element order", okc, "joined parts of the emitted form: %s (element-wise over self: %s)" % ([j[1] for j in joins], [j[0] for j in joins]))
     # fail closed: the interpreter must have modelled every construct of the code generator it walked
-    for key in codegen.COMPILE_IMPLS + codegen.HELPERS:
+    for key in codegen.COMPILE_IMPLS + codegen.helpers(facts):
         unk = sorted({u for r in codegen.table(facts, key) for u in r["unknown"]})
         c.ob("C02.modelled", key, "every construct of the generator was interpreted", not unk, "unmodelled constructs: %s" % unk[:4] if unk else "all paths fully interpreted", nontrivial=False)
     for M in codegen.MANAGERS:
